@@ -1048,7 +1048,8 @@ theorem dieRangesCore_ranges_wins (u : UnitCtx) (secs : Sections) (pre post : At
   simp only [ho, Out.bind_ok]
   cases unitRangesAt u secs o <;> rfl
 
-/-- without `DW_AT_ranges`: the single range `low_pc .. high_pc` or `low_pc .. low_pc + size` -/
+/-- without `DW_AT_ranges`: the single range `low_pc .. high_pc` or `low_pc .. low_pc + size`,
+kept only if it is non-empty and below the tombstones -/
 theorem dieRangesCore_single (u : UnitCtx) (secs : Sections) (attrs : Attrs)
     (hb : ∀ a ∈ attrs, Benign a) :
     dieRangesCore u secs attrs =
@@ -1057,8 +1058,10 @@ theorem dieRangesCore_single (u : UnitCtx) (secs : Sections) (attrs : Attrs)
       | none => .ok (.single none)
       | some b =>
         match acc.size with
-        | some sz => if 2 ^ 64 ≤ b + sz then .err .rAddressOverflow else .ok (.single (some (b, b + sz)))
-        | none => .ok (.single (acc.highPc.map fun e => (b, e))) := by
+        | some sz =>
+          if 2 ^ 64 ≤ b + sz then .err .rAddressOverflow
+          else .ok (.single (keepSingle u.cfg.addrSize (some (b, b + sz))))
+        | none => .ok (.single (keepSingle u.cfg.addrSize (acc.highPc.map fun e => (b, e)))) := by
   unfold dieRangesCore
   have := dieRangesLoop_benign u secs attrs [] {} hb
   rw [List.append_nil] at this
@@ -1163,6 +1166,45 @@ theorem dieRangesLoop_list_items (u : UnitCtx) (secs : Sections) (attrs : Attrs)
     | loclistsBase => simp only [dieRangesLoop] at h; exact ih _ evs h
     | other => simp only [dieRangesLoop] at h; exact ih _ evs h
 
+theorem keepSingle_some (s : Nat) (r : Option (Nat × Nat)) (b e : Nat)
+    (h : keepSingle s r = some (b, e)) : r = some (b, e) ∧ b < e ∧ b < minTombstone s := by
+  cases r with
+  | none => simp [keepSingle] at h
+  | some p =>
+    obtain ⟨b', e'⟩ := p
+    simp only [keepSingle] at h
+    split at h
+    · rename_i hk
+      simp only [Option.some.injEq, Prod.mk.injEq] at h
+      obtain ⟨rfl, rfl⟩ := h
+      exact ⟨rfl, hk.2, hk.1⟩
+    · simp at h
+
+/-- the single range of `die_ranges`, when there is one, is non-empty and below the tombstones -/
+theorem dieRangesCore_single_items (u : UnitCtx) (secs : Sections) (attrs : Attrs) (b e : Nat)
+    (h : dieRangesCore u secs attrs = .ok (.single (some (b, e)))) :
+    b < e ∧ b < minTombstone u.cfg.addrSize := by
+  unfold dieRangesCore at h
+  cases hl : dieRangesLoop u secs attrs {} with
+  | ok r =>
+    rw [hl] at h
+    cases r with
+    | inr evs' => simp at h
+    | inl acc =>
+      simp only [Out.bind_ok] at h
+      split at h
+      · simp at h
+      · split at h
+        · split at h
+          · simp at h
+          · simp only [Out.pure_eq, Out.ok.injEq, RangesResult.single.injEq] at h
+            exact (keepSingle_some _ _ _ _ h).2
+        · simp only [Out.pure_eq, Out.ok.injEq, RangesResult.single.injEq] at h
+          exact (keepSingle_some _ _ _ _ h).2
+  | err x => rw [hl] at h; simp at h
+  | panic w => rw [hl] at h; simp at h
+  | diverge => rw [hl] at h; simp at h
+
 theorem dieRangesCore_list_items (u : UnitCtx) (secs : Sections) (attrs : Attrs)
     (evs : List (Ev Item)) (h : dieRangesCore u secs attrs = .ok (.list evs)) :
     ∀ it, Ev.item it ∈ evs → it.b < it.e ∧ it.b < minTombstone u.cfg.addrSize := by
@@ -1186,6 +1228,32 @@ theorem dieRangesCore_list_items (u : UnitCtx) (secs : Sections) (attrs : Attrs)
   | panic w => rw [hl] at h; simp at h
   | diverge => rw [hl] at h; simp at h
 
+
+/-- every range `die_ranges` / `unit_ranges` yields — list path and single path — is non-empty and
+begins below the tombstones -/
+theorem dieRanges_items (u : UnitCtx) (secs : Sections) (attrs : Attrs) (evs : List (Ev Item))
+    (h : dieRanges u secs attrs = .ok evs) :
+    ∀ it, Ev.item it ∈ evs → it.b < it.e ∧ it.b < minTombstone u.cfg.addrSize := by
+  unfold dieRanges at h
+  cases hc : dieRangesCore u secs attrs with
+  | ok r =>
+    rw [hc] at h
+    simp only [Out.bind_ok, Out.pure_eq, Out.ok.injEq] at h
+    subst h
+    cases r with
+    | list evs' => exact dieRangesCore_list_items u secs attrs evs' hc
+    | single o =>
+      cases o with
+      | none => intro it hit; simp [RangesResult.events] at hit
+      | some p =>
+        obtain ⟨b, e⟩ := p
+        intro it hit
+        simp only [RangesResult.events, List.mem_singleton, Ev.item.injEq] at hit
+        subst hit
+        exact dieRangesCore_single_items u secs attrs b e hc
+  | err x => rw [hc] at h; simp at h
+  | panic w => rw [hc] at h; simp at h
+  | diverge => rw [hc] at h; simp at h
 
 /-! ## totality of the unit-level helpers -/
 
